@@ -597,6 +597,26 @@ func (e *Exec) zz(name string, args []Value, fn *ssa.Function) Value {
 			return &Str{Base: Loc{Obj: o}, Off: e.c64(0), Len: e.c64(int64(n))}
 		}
 		return &Slice{Base: Loc{Obj: o}, Off: e.c64(0), Len: e.c64(int64(n)), Cap: e.c64(int64(n))}
+	case "BytesSparse":
+		nt, kt := args[0].(*Term), args[1].(*Term)
+		if !nt.IsConst() || !kt.IsConst() {
+			panic(engineBug{"zzverif.BytesSparse with symbolic length"})
+		}
+		n, k := int(nt.Val), int(kt.Val)
+		var a *ArrayV
+		if n <= 2*k {
+			a = &ArrayV{E: e.freshBytes(n)}
+		} else {
+			sym := e.freshBytes(2 * k)
+			a = &ArrayV{E: make([]Value, n)}
+			for i := 0; i < n; i++ {
+				a.E[i] = tc.Const(8, uint64(byte(i*7+3)))
+			}
+			copy(a.E[:k], sym[:k])
+			copy(a.E[n-k:], sym[k:])
+		}
+		o := e.newObject(a, nil, "zzverif.BytesSparse")
+		return &Slice{Base: Loc{Obj: o}, Off: e.c64(0), Len: e.c64(int64(n)), Cap: e.c64(int64(n))}
 	case "Fill":
 		s := args[0].(*Slice)
 		n := e.concretize(s.Len, 0, e.job.MaxAlloc)
